@@ -105,7 +105,8 @@ func c20Direct(cs c20Case) (string, string) {
 		send = b.Send
 	}
 	// a stale reconnectable connection: established by an earlier send, then reset by the peer
-	if cs.Secondary == "stale" {
+	// (stale-partial: it will take the first 100 bytes of the next write before it breaks)
+	if cs.Secondary == "stale" || cs.Secondary == "stale-partial" {
 		if inboundProg != nil {
 			// the warm-up must travel over the reconnectable path: hide the inbound connection for it
 			inboundProg.FailWrites = 1
@@ -118,7 +119,11 @@ func c20Direct(cs c20Case) (string, string) {
 			return "", "" // combination not constructible (the warm-up was absorbed elsewhere)
 		}
 		accepted[len(accepted)-1].Drain()
-		accepted[len(accepted)-1].Reset()
+		if cs.Secondary == "stale-partial" {
+			accepted[len(accepted)-1].Peer().PartialFail = 100
+		} else {
+			accepted[len(accepted)-1].Reset()
+		}
 		if cs.Primary != "absent" {
 			// the warm-up made the fail-over forget the inbound connection; not the scenario wanted
 			return "", ""
@@ -128,7 +133,7 @@ func c20Direct(cs c20Case) (string, string) {
 	failed := map[*vnet.TCPConn]bool{} // program-side connections on which a write has failed
 	var lastCarrier *vnet.TCPConn      // program-side connection that carried the previous delivered message
 	healthy := func(c *vnet.TCPConn) bool {
-		return c != nil && !c.IsClosed() && !c.Peer().IsClosed() && !c.ClosedByPeer() && c.FailWrites == 0
+		return c != nil && !c.IsClosed() && !c.Peer().IsClosed() && !c.ClosedByPeer() && c.FailWrites == 0 && c.PartialFail == 0
 	}
 	planPos := func() int {
 		n := 0
@@ -183,6 +188,13 @@ func c20Direct(cs c20Case) (string, string) {
 		}
 		for _, e := range ends {
 			got := e.Drain()
+			if k := e.Peer().Partial; k > 0 {
+				// the environment's own doing: the connection took the first k bytes of a write, then broke
+				e.Peer().Partial = 0
+				if len(got) >= k && k <= len(want) && bytes.Equal(got[len(got)-k:], want[:k]) {
+					got = got[:len(got)-k]
+				}
+			}
 			n := bytes.Count(got, want)
 			copies += n
 			if n > 0 {
@@ -384,8 +396,8 @@ func c20Eval(cs c20Case) (cl string, detail string) {
 	return
 }
 
-func c20Plans(maxLen int) [][]int {
-	if maxLen >= 4 {
+func c20Plans(maxLen int, outcomes int) [][]int {
+	if maxLen >= 4 || outcomes != 3 {
 		plans := [][]int{nil}
 		var rec func(cur []int)
 		rec = func(cur []int) {
@@ -395,7 +407,7 @@ func c20Plans(maxLen int) [][]int {
 			if len(cur) == maxLen {
 				return
 			}
-			for a := 0; a < 3; a++ {
+			for a := 0; a < outcomes; a++ {
 				// the last outcome repeats: a plan never ends with a repetition of its last element
 				rec(append(cur, a))
 			}
@@ -438,10 +450,16 @@ func c20Run(c *Ctx) {
 		if c.Thorough() {
 			prims = append(prims, "fails@3")
 		}
-		secs := []string{"fresh", "stale", "absent"}
-		if target == "backend" || target == "e2e-request" {
+		secs := []string{"fresh", "stale", "absent", "stale-partial"}
+		outcomes := 4 // dial outcomes incl. "accepted, first write delivers 100 bytes and then fails"
+		if target == "backend" {
+			prims = []string{"absent"}
+			secs = []string{"fresh", "stale", "stale-partial"}
+		}
+		if target == "e2e-request" {
 			prims = []string{"absent"}
 			secs = []string{"fresh", "stale"}
+			outcomes = 3
 		}
 		if target == "e2e-response" {
 			prims = []string{"healthy", "fails@0", "fails@1", "fails@2"}
@@ -449,10 +467,11 @@ func c20Run(c *Ctx) {
 				prims = append(prims, "fails@3")
 			}
 			secs = []string{"fresh"}
+			outcomes = 3
 		}
 		for _, pr := range prims {
 			for _, sc := range secs {
-				for _, plan := range c20Plans(maxPlan) {
+				for _, plan := range c20Plans(maxPlan, outcomes) {
 					for brk := -1; brk < maxSend; brk++ {
 						for n := 1; n <= maxSend; n++ {
 							if brk >= n || (strings.HasPrefix(pr, "fails@") && int(pr[6]-'0') >= n) {
@@ -493,7 +512,7 @@ func c20Run(c *Ctx) {
 
 func init() {
 	addCheck(&Check{ID: "C20", Level: "fault_enumeration",
-		Rule:   "the complete fault product as environment answers of the simulated network: cached inbound connection {absent, healthy, reset by the peer before send 0/1/2} x reconnectable path {fresh, stale (established earlier, then reset), absent} x every dial plan of up to three (thorough four) successive outcomes over {accepted, refused, accepted but every write fails} x working connection reset before send 0/1/2 or never x send sequences of 1-3 (thorough 1-4) messages, for (a) the FailOverClientTransport obtained from the real ClientTransportMgr exactly as the proxy obtains it, (b) a directly constructed fail-over, (c) TCPBackend, (d) end to end: responses towards a TCP client whose connection breaks, (e) requests towards a TCP backend; oracle: Send returns nil iff exactly one complete copy was delivered, success is required whenever the next connection attempt is accepted with healthy writes, no write on a connection that failed before, no dial while the working connection is healthy, no hang, no crash; non-trivial = at least one fault in the pattern",
+		Rule:   "the complete fault product as environment answers of the simulated network: cached inbound connection {absent, healthy, reset by the peer before send 0/1/2} x reconnectable path {fresh, stale (established earlier, then reset), stale-partial (takes the first 100 bytes of the next write, then breaks), absent} x every dial plan of up to three (thorough four) successive outcomes over {accepted, refused, accepted but every write fails, accepted but the first write is cut after 100 bytes (direct targets)} x working connection reset before send 0/1/2 or never x send sequences of 1-3 (thorough 1-4) messages, for (a) the FailOverClientTransport obtained from the real ClientTransportMgr exactly as the proxy obtains it, (b) a directly constructed fail-over, (c) TCPBackend, (d) end to end: responses towards a TCP client whose connection breaks, (e) requests towards a TCP backend; oracle: Send returns nil iff exactly one complete copy was delivered, success is required whenever the next connection attempt is accepted with healthy writes, no write on a connection that failed before, no dial while the working connection is healthy, no hang, no crash; non-trivial = at least one fault in the pattern",
 		Assume: []string{"a write on a reset connection fails at once (the kernel's delayed RST, which makes exactly-once impossible for any implementation, is outside the model)", "a peer that black-holes a dial is outside what the simulation can decide"},
 		Run:    c20Run,
 		Replay: func(c *Ctx, raw json.RawMessage) string {
